@@ -166,7 +166,9 @@ def edge_conditions(fn, target_bbs):
                 live.append((v, s))
         if t["otherwise"] in can and (t["otherwise"] in targets or fn.can_reach(t["otherwise"], targets, avoid=[b])):
             live.append(("otherwise", t["otherwise"]))
-        n_edges = len(t["targets"]) + 1
+        # edges that lead somewhere (the `otherwise` of an exhaustive match goes to an `unreachable` block)
+        n_edges = sum(1 for _v, s_ in t["targets"] if fn.term(s_)["k"] != "unreachable") + \
+            (1 if fn.term(t["otherwise"])["k"] != "unreachable" else 0)
         if 1 <= len(live) < n_edges and len(set(fn.succ(b))) > 1:
             # some out-edge cannot lead to a target any more: the values of the live ones are a necessary condition
             # (the live edges may go to different successors: `A | B if g =>` tests the guard once per alternative)
@@ -531,15 +533,16 @@ def describe_operand(fn, defs, op, depth=0):
     pl = op_place(op)
     l = pl["l"]
     proj = "".join("." + str(e.get("n", e.get("f", "?"))) for e in pl["p"] if isinstance(e, dict) and "f" in e)
-    for _ in range(6):
+    for _ in range(8):
         nm = _var_name(fn, l)
-        if nm:
-            return nm + proj
         if 1 <= l <= fn.d["arg_count"]:
-            return "arg%d%s" % (l, proj)
+            return (nm or "arg%d" % l) + proj
         dd = defs.whole_defs(l)
         if len(dd) != 1:
-            return "?" + proj
+            # a variable assigned in several places (loop state, `mut`): its name is the best description there is
+            return (nm or "?") + proj
+        # a `let` with a single definition is described by what it is bound to, so that introducing or renaming a
+        # local does not change the description
         b, i, kind, payload = dd[0]
         if kind == "call":
             c = callee(payload) or callee_def(payload) or "?"
